@@ -37,6 +37,19 @@ def pattern(n, kind, rng, qc):
         a = np.zeros((n, 4), dtype=np.uint64)
         a[::2] = U64
         return a
+    if kind in ("blocks", "mix", "mixlane"):
+        # 0 and all-ones (and their close neighbours) side by side: in blocks of a power-of-two length, per coefficient, per lane. The lazy
+        # subtractions of a butterfly are closest to wrapping when one input is maximal and the other one reduces to nothing
+        g = np.random.default_rng(rng.randrange(1 << 30))
+        if kind == "blocks":
+            blk = max(1, n >> rng.randrange(1, 5))
+            sel = np.repeat(g.integers(0, 2, (n + blk - 1) // blk), blk)[:n].reshape(n, 1) * np.ones((1, 4), dtype=np.int64)
+        elif kind == "mix":
+            sel = g.integers(0, 2, (n, 1)) * np.ones((1, 4), dtype=np.int64)
+        else:
+            sel = g.integers(0, 2, (n, 4))
+        jitter = g.integers(0, 1 << 20, (n, 4), dtype=np.uint64) * np.uint64(rng.choice([0, 0, 1]))
+        return np.where(sel == 1, np.uint64(U64) - jitter, jitter).astype(np.uint64)
     if kind == "near":
         return np.array([[min(U64, (qc.q[k] << rng.randrange(0, 34)) * rng.randrange(1, 3) - 1) for k in range(4)] for _ in range(n)],
                         dtype=np.uint64)
@@ -94,7 +107,8 @@ def drive(rec, ns, quick):
                            "res": mod_rows(z, qc).tolist(), "_what": "convolution theorem n=%d" % n})
             rec.case(("conv", n))
         # --- round trip and linearity on extremal lanes, all positions
-        for kind in ["ones", "alt", "near", "random"][:(2 if (quick and n > 4096) else 4)]:
+        mixes = (["blocks"] * 4 + ["mix"] * (10 if quick else 60) + ["mixlane"] * (6 if quick else 30)) if n >= 4 else []
+        for kind in ["ones", "alt", "near", "random"][:(2 if (quick and n > 4096) else 4)] + mixes:
             x = pattern(n, kind, rng, qc)
             if not rec.progress("q120 ntt+intt n=%d pattern=%s" % (n, kind)):
                 continue
@@ -106,7 +120,7 @@ def drive(rec, ns, quick):
                 continue
             mism = int((mod_rows(rt, qc) != mod_rows(x, qc)).sum())
             # linearity: NTT(x) + NTT(y) = NTT(x + y) modulo each prime (lanes halved so that sums do not wrap)
-            y = pattern(n, "random", rng, qc)
+            y = pattern(n, "random" if kind not in ("blocks", "mix", "mixlane") else kind, rng, qc)
             xh, yh = x >> np.uint64(1), y >> np.uint64(1)
             lhs = (mod_rows(qc.run_ntt(n, False, xh), qc) + mod_rows(qc.run_ntt(n, False, yh), qc)) % np.array(qc.q, dtype=np.int64)
             rhs = mod_rows(qc.run_ntt(n, False, xh + yh), qc)
